@@ -1,3 +1,122 @@
-(** C22 -- placeholder while the pipeline is brought up *)
-From TLV Require Import Fmt2.Fmt2Model Fmt2.Fmt2LexModel Fmt2.Fmt2Proofs.
+(** C22 -- the TL2 formatter (TL2File.Print / TL2Combinator.Print, default and canonical options) round-trips
+    through ParseTL2File and is idempotent.
+
+    Full statement (not proved: it needs a Gallina model of the whole TL2 parser):
+      for every file a in the image of ParseTL2File and both option sets o:
+        parse2 (fmt2 o a) = Ok a'  /\  erase a' = erase a   and   fmt2 o a' = fmt2 o a
+    where [erase] drops positions and comments.  It is observed on the Go side by every run of lib/checks/C22.py
+    (ParseTL2File -> Print -> ParseTL2File, AST dumps and texts compared), and it is FALSE as stated: see
+    [C22_fmt2_refuted_single_variant] (finding F8) and the deprecated-field-name finding of the check.
+
+    Proved here, over all ASTs / all byte strings (the model [fmt2] is tied to the Go printers, [lex2] to the Go
+    lexer and [parse_ty] to parseTL2Type by the correspondence run):
+      - [C22_lex_fmt2_partial]: for every option record whatsoever (so: default, canonical, any line widths) the
+        text printed for a well-formed file lexes -- comments, blanks, line breaks and indentation skipped -- to
+        exactly the token stream [toks_file] of the AST: no token is lost, split, merged or invented by the layout
+        (names next to names are separated, '<' is never followed by '=>', magic is exactly 8 hex digits, every
+        comment line the printer writes is closed by a line feed before the next token, ...).  The only thing the
+        layout decides is whether the first variant of a union carries its bar ([comb_bar]).
+      - [C22_options_same_tokens]: hence default and canonical output carry the same tokens (identical for
+        everything but unions, where they may differ in that one leading '|').
+      - [C22_parse_print_typeref_partial], [C22_parse_print_typeref_tail_partial]: for the type-expression
+        sub-grammar the round trip itself: lexing then parseTL2Type on a printed type reference returns that
+        reference and stops exactly at its end; so [C22_print_typeref_injective].
+    [_partial]: what is missing for the full statement is the parser above type expressions (fields, unions,
+    declarations) and the comment attachment. *)
+From TLV Require Import Fmt2.Fmt2Model Fmt2.Fmt2LexModel Fmt2.Fmt2Proofs Fmt2.Fmt2PrintProofs.
 Open Scope N_scope.
+
+Theorem C22_lex_fmt2_partial : forall o f, forallb (wf_comb o) f = true -> lex2 (fmt2 o f) = Some (toks_file o f).
+Proof. exact lex_fmt2. Qed.
+Print Assumptions C22_lex_fmt2_partial.
+
+Theorem C22_lex_print_comb_partial : forall o c, wf_comb o c = true ->
+  lex2 (print_comb o c) = Some (toks_comb (comb_bar o c) c).
+Proof. exact lex_print_comb. Qed.
+Print Assumptions C22_lex_print_comb_partial.
+
+Theorem C22_options_same_tokens : forall c, wf_comb default_options c = true ->
+  lex2 (print_comb default_options c) = Some (toks_comb (comb_bar default_options c) c) /\
+  lex2 (print_comb canonical_options c) = Some (toks_comb (comb_bar canonical_options c) c) /\
+  (is_union c = false -> lex2 (print_comb default_options c) = lex2 (print_comb canonical_options c)).
+Proof. exact fmt2_options_same_tokens. Qed.
+Print Assumptions C22_options_same_tokens.
+
+Theorem C22_parse_print_typeref_partial : forall t, wf_tref t = true ->
+  parse_ty_bytes (print_tref t) = Some (POk t []).
+Proof. exact parse_print_tref. Qed.
+Print Assumptions C22_parse_print_typeref_partial.
+
+Theorem C22_parse_print_typeref_tail_partial : forall t tail rest,
+  wf_tref t = true -> nid tail -> lex2 tail = Some rest -> hd_is 60 rest = false ->
+  parse_ty_bytes (print_tref t ++ tail) = Some (POk t rest).
+Proof. exact parse_print_tref_tail. Qed.
+Print Assumptions C22_parse_print_typeref_tail_partial.
+
+Theorem C22_print_typeref_injective : forall t1 t2,
+  wf_tref t1 = true -> wf_tref t2 = true -> print_tref t1 = print_tref t2 -> t1 = t2.
+Proof. exact print_tref_inj. Qed.
+Print Assumptions C22_print_typeref_injective.
+
+(* the lexer model is total: its fuel never runs out *)
+Theorem C22_lex2_fuel_irrelevant : forall s f, (length s <= f)%nat -> lex_fuel f s = lex2 s.
+Proof. intros s f H. unfold lex2. apply (lex_fuel_enough (length s)); auto. Qed.
+Print Assumptions C22_lex2_fuel_irrelevant.
+
+(** F8: the printed text of a one-variant union is also the printed text of a declaration that is not a union,
+    for both option sets, so no parser can give the union back; [comb_bar] = false says why: on one line the
+    leading bar is not written.  (`f#00000001 => | A;` and `f#00000001 => A;`; the real parser returns the second.) *)
+Theorem C22_fmt2_refuted_single_variant :
+  exists c c', c <> c' /\
+    wf_comb default_options c = true /\ wf_comb default_options c' = true /\
+    (forall o, o = default_options \/ o = canonical_options -> print_comb o c = print_comb o c') /\
+    is_union c = true /\ is_union c' = false /\ comb_bar canonical_options c = false.
+Proof. exact fmt2_refuted_single_variant. Qed.
+Print Assumptions C22_fmt2_refuted_single_variant.
+
+(** Non-vacuity and sanity, by computation. *)
+Definition s (l : list N) : str := l.
+Definition n_int : tname := TName [] [105; 110; 116].
+Definition t_int : tref := TApp n_int false [].
+(* testNs.testName#09abcdef<x:#,y:Type> = Green x:int | Red | SomeStr string;   (tlparser_tl2_code_test.go "check print") *)
+Definition ex_union : comb :=
+  Comb [] [] (DType (TName [116; 101; 115; 116; 78; 115] [116; 101; 115; 116; 78; 97; 109; 101]) 162254319
+    [TParam [120] true; TParam [121] false]
+    (DUnion [Variant [71; 114; 101; 101; 110] [] (VFields [Field [120] false false [] t_int]);
+             Variant [82; 101; 100] [] (VFields []);
+             Variant [83; 111; 109; 101; 83; 116; 114] [] (VAlias (TApp (TName [] [115; 116; 114; 105; 110; 103]) false []))])).
+Example ex_union_text : print_comb default_options ex_union =
+  [116; 101; 115; 116; 78; 115; 46; 116; 101; 115; 116; 78; 97; 109; 101; 35; 48; 57; 97; 98; 99; 100; 101; 102; 60; 120; 58; 35; 44;
+   121; 58; 84; 121; 112; 101; 62; 32; 61; 32; 71; 114; 101; 101; 110; 32; 120; 58; 105; 110; 116; 32; 124; 32; 82; 101; 100; 32; 124;
+   32; 83; 111; 109; 101; 83; 116; 114; 32; 115; 116; 114; 105; 110; 103; 59].
+Proof. vm_compute. reflexivity. Qed.
+Example ex_union_wf : wf_comb default_options ex_union = true.
+Proof. vm_compute. reflexivity. Qed.
+Example ex_union_lex : lex2 (print_comb default_options ex_union) = Some (toks_comb false ex_union).
+Proof. vm_compute. reflexivity. Qed.
+(* with a comment on a variant the union is laid out on several lines and the first bar appears *)
+Definition ex_union_cm : comb :=
+  Comb [47; 47; 32; 99] [[120]] (DType (TName [] [97]) 0 []
+    (DUnion [Variant [65] [47; 47; 32; 118; 32; 32; 10; 32; 47; 47; 119] (VFields []); Variant [66] [] (VAlias (TIdx (ANum 3) t_int))])).
+Example ex_union_cm_text : print_comb default_options ex_union_cm =
+  [47; 47; 32; 99; 10; 64; 120; 32; 97; 32; 61; 32; 10; 9; 47; 47; 32; 118; 10; 9; 47; 47; 119; 10; 9; 124; 32; 65; 10; 9; 124; 32; 66; 32;
+   91; 51; 93; 105; 110; 116; 59].
+Proof. vm_compute. reflexivity. Qed.
+Example ex_union_cm_bar : comb_bar default_options ex_union_cm = true /\ comb_bar canonical_options ex_union_cm = false.
+Proof. split; vm_compute; reflexivity. Qed.
+Example ex_union_cm_lex : wf_comb default_options ex_union_cm = true /\
+  lex2 (print_comb default_options ex_union_cm) = Some (toks_comb true ex_union_cm).
+Proof. split; vm_compute; reflexivity. Qed.
+(* [[]list<[]int>]array<2,[][]string> *)
+Definition ex_ty : tref :=
+  TIdx (ATy (TArr (TApp (TName [] [108; 105; 115; 116]) false [ATy (TArr t_int)])))
+       (TApp (TName [] [97; 114; 114; 97; 121]) false [ANum 2; ATy (TArr (TArr (TApp (TName [] [115; 116; 114; 105; 110; 103]) false [])))]).
+Example ex_ty_roundtrip : wf_tref ex_ty = true /\ parse_ty_bytes (print_tref ex_ty) = Some (POk ex_ty []).
+Proof. split; vm_compute; reflexivity. Qed.
+(* the hypotheses exclude what the lexer would not give back: a type called Type, a bare marker *)
+Example ex_not_wf : wf_tref (TApp (TName [] s_Type) false []) = false /\ wf_tref (TApp n_int true []) = false.
+Proof. split; vm_compute; reflexivity. Qed.
+(* F8 on type declarations: `a = | A;` is printed like the (unparseable) struct `a = A;` *)
+Example ex_f8_type : print_comb canonical_options f8_type_union = [97; 32; 61; 32; 65; 59] /\
+  print_comb canonical_options f8_type_struct = [97; 32; 61; 32; 65; 59].
+Proof. split; vm_compute; reflexivity. Qed.
